@@ -90,16 +90,19 @@ func init() {
 	reg := func(id, kind string, full bool, oracle string) {
 		register(id, "model_checking", func(r *engine.Run) {
 			ws := worldsFor(kind)
+			if os.Getenv("VERIF_EXPERIMENT") == "publisher-offered" {
+				ws = worldsFor("publisher-offered")
+			}
 			if r.Thorough() && (id == "C01" || id == "C03") {
 				ws = append(ws, worldsFor("extreme")...) // genesis volume 2^64-2 droplets: coin and hour sums touch 2^64
 			}
 			runExplore(r, id, exploreCfg{Worlds: ws, MaxDepth: r.Pick(4, 6), MaxStates: r.Pick(2500, 40000), Budget: budget(r), Roots: roots, FullViews: full}, common+oracle)
 		})
 	}
-	reg("C01", "both", false, "oracle C01: Σ coins of the real unspent set equals the genesis volume in every state; every transaction of an accepted block has Σin = Σout (exact); coin-creating / destroying / sum-wrapping transactions are rejected at injection and inside publisher-signed blocks")
-	reg("C02", "both", false, "oracle C02: the real unspent set (id, owner, coins, hours, time, seq, source) equals created−spent of the model in every state; no output is removed twice; blocks with double spends (inside a block, of spent outputs, of outputs created in the same block, same transaction twice) are rejected")
-	reg("C03", "both", false, "oracle C03: for every transaction of an accepted block Σ output hours ≤ Σ exactly accrued input hours at the previous head time (legacy per-input exception applied only when the exact sum needs ≥ 2^64); injection never admits output hours summing to ≥ 2^64; time deltas up to 1e7 s per block")
-	reg("C04", "follower", false, "oracle C04: ExecuteSignedBlock accepts exactly the model-valid next blocks over the whole mutated-block alphabet; the stored chain equals the submitted headers bit for bit and every stored signature verifies over the stored header; a rejected block leaves every bucket unchanged")
+	reg("C01", "follower+offered", false, "oracle C01: Σ coins of the real unspent set equals the genesis volume in every state; every transaction of an accepted block has Σin = Σout (exact); coin-creating / destroying / sum-wrapping transactions are rejected at injection and inside publisher-signed blocks")
+	reg("C02", "follower+offered", false, "oracle C02: the real unspent set (id, owner, coins, hours, time, seq, source) equals created−spent of the model in every state; no output is removed twice; blocks with double spends (inside a block, of spent outputs, of outputs created in the same block, same transaction twice) are rejected")
+	reg("C03", "follower+offered", false, "oracle C03: for every transaction of an accepted block Σ output hours ≤ Σ exactly accrued input hours at the previous head time (legacy per-input exception applied only when the exact sum needs ≥ 2^64); injection never admits output hours summing to ≥ 2^64; time deltas up to 1e7 s per block")
+	reg("C04", "follower+offered", false, "oracle C04: ExecuteSignedBlock accepts exactly the model-valid next blocks over the whole mutated-block alphabet; the stored chain equals the submitted headers bit for bit and every stored signature verifies over the stored header; a rejected block leaves every bucket unchanged")
 	register("C05", "model_checking", func(r *engine.Run) {
 		ws := append(worldsFor("publisher"), worldsFor("publisher-small")...)
 		runExplore(r, "C05", exploreCfg{Worlds: ws, MaxDepth: r.Pick(6, 8), MaxStates: r.Pick(2500, 40000), Budget: budget(r), Roots: roots}, common+c05oracle)
